@@ -270,6 +270,12 @@ func c04Case(base *world.World, r *mrand.Rand, lv []absLevel, mod absModule, ide
 	for _, a := range lv {
 		w.Tcb.Levels = append(w.Tcb.Levels, a.concretise(r, w.P))
 	}
+	// the descriptive category / type texts of the components vary from case to case and from level to level (six layouts, Intel's
+	// among them): they describe a component, the comparison is by position
+	lr := mrand.New(mrand.NewSource(int64(len(param))*7919 + int64(len(lv))*104729 + int64(len(class))))
+	for i := range w.Tcb.Levels {
+		w.Tcb.Levels[i].Labels = lr.Intn(6)
+	}
 	if strings.HasPrefix(class, "level-shape/") { // the FIRST level is malformed in the named way
 		l := &w.Tcb.Levels[0]
 		var n int
